@@ -196,13 +196,25 @@ class SpyBreaker(CircuitBreaker):
         self._rv_sink().append(("br.allow", d.allowed, d.state.value, d.event, w.now() if w else None, CircuitBreaker.state.fget(self).value))
         return d
 
+    def _rv_interrupt(self, op):
+        """Fault plan {"kind": "breaker", "op": ..., "exc": ...}: an interrupt (Ctrl-C, cancellation) that lands inside the
+        breaker's own method, before it has changed anything - e.g. while it reads its clock."""
+        h = getattr(self._rv_sink, "__self__", None)
+        f = getattr(h, "fault", None)
+        if f and f.get("kind") == "breaker" and f["op"] == op and h.cur is not None:
+            h.cur.fault_fired += 1
+            h.cur.trace.append(("fault", "breaker." + op, f["exc"]))
+            raise make_exc(f["exc"])
+
     def record_success(self):
+        self._rv_interrupt("record_success")
         r = super().record_success()
         w = env.current()
         self._rv_sink().append(("br.success", r, w.now() if w else None))
         return r
 
     def record_failure(self, klass):
+        self._rv_interrupt("record_failure")
         r = super().record_failure(klass)
         w = env.current()
         self._rv_sink().append(("br.failure", getattr(klass, "name", repr(klass)), r, w.now() if w else None))
